@@ -35,13 +35,27 @@ META = dict(
                 'utf::valid / utf8::is_trail / trail_length / width of the UTF-8 decoder (private/utf_iterator.h) are '
                 'regenerated from the source (cxx2v / clang AST) on every run and proved equal to the model leafs (Link.v, LinkE.v). The oracle judges '
                 'well-formedness in the declared encoding independently of the implementation (python strict decoders / code page tables + control character rule) '
-                'for whatever validate accepts and for every filter output.'),
+                'for whatever validate accepts and for every filter output. '
+                'Regex-typed attributes: the regex validator is concrete in the model for the pattern family the rule sets use (coq/C04/DefsR.v: pattern text -> '
+                'regular expression of coq/C20/Defs.v, decided by C20\'s verified derivative matcher); regex_attribute_checked: such an attribute is accepted only if the '
+                'WHOLE value is in the language of the pattern (regex_validator_exact, regex_class_languages, regex_rejects_trailing_byte: under [a-z]+ no value '
+                'followed by a line feed or any other byte outside the class); the model\'s verdict is compared with the real regex_functor\'s for every value asked; the '
+                'oracle re-judges every regex-typed value with python re.fullmatch. Numeric character references: the conversion long code_point = strtol(...) is '
+                'modelled with saturation at LONG_MAX (coq/C04/DefsN.v) and proved to give, for every text, the verdict of the mathematical value of the digit string '
+                '(numeric_reference_conversion_exact, numeric_reference_accepted_iff: digit strings of any length); the oracle judges with python big integers. '
+                'RIGID ties (src_regex_anchoring_and_entity_conversion, coq/C04/LinkR.v): the statements of regex::assign / regex::match in '
+                'booster/lib/regex/src/pcre_regex.cpp (the wrapper "(?:" pattern ")\\z" compiled into d->are, pcre_exec with PCRE_ANCHORED), booster::regex_match, the '
+                'regex_functor of xss.cpp, and the declaration long code_point / the two strtol calls of parse_html_entity, rendered from the AST, must be literally '
+                'the recorded text.'),
     level_note=('Trusted: Coq kernel + vm_compute; cxx2v and clang AST; ExtrOcamlBasic extraction; hand model of the loops of src/xss.cpp '
                 'incl. the composite rules of class uri_parser (behaviour tied by correspondence; their control skeleton by a literal comparison in Link.v); '
                 'hand model of utf8::next (switch with fall-through), validate_or_filter and the validators_set table (coq/C14/Defs.v, owned by C14, imported read-only; '
                 'tied here by correspondence on encoding boundary material: boundary code points in shortest and every over-long form, truncations, stray and bad '
                 'trail bytes, a grid of lead/second/trail byte classes, every byte under every single byte validator); '
-                'PCRE is an abstract function; the iconv conversions for names without a built-in validator are abstract.'),
+                'PCRE itself is not modelled: for patterns of the family of DefsR.v the model decides and the real engine is cross-checked on every value asked, '
+                'patterns outside the family and the scheme expressions of URI validators are abstract functions (the oracle re-checks them with python re); '
+                'the pattern parser of DefsR.v is unverified against PCRE syntax (tied by that cross-check); long = 64 bits (LP64) and strtol saturating at LONG_MAX are '
+                'the C library semantics assumed in DefsN.v; the iconv conversions for names without a built-in validator are abstract.'),
 )
 
 GEN = {
@@ -780,6 +794,7 @@ def gen_control():
     out = os.path.join(vlib.COQ, 'gen', 'Gen_C04ctl.v')
     enc_src = os.path.join(vlib.REPO, 'src/encoding.cpp')
     xss_src = os.path.join(vlib.REPO, 'src/xss.cpp')
+    re_src = os.path.join(vlib.REPO, 'booster/lib/regex/src/pcre_regex.cpp')
     TRANSPARENT = ('ParenExpr', 'ImplicitCastExpr', 'ExprWithCleanups', 'MaterializeTemporaryExpr', 'CXXBindTemporaryExpr', 'ConstantExpr')
 
     def rx(n):
@@ -934,7 +949,8 @@ def gen_control():
                 'validate_nesting', 'validate_entry_by_rules']
     try:
         import concurrent.futures
-        want = [(enc_src, 'valid'), (enc_src, 'encoding::is_'), (xss_src, 'xss::validate'), (xss_src, 'xss::filter')] + [(xss_src, n) for n in XSS_CORE]
+        want = [(enc_src, 'valid'), (enc_src, 'encoding::is_'), (xss_src, 'xss::validate'), (xss_src, 'xss::filter'), (re_src, 'regex::'),
+                (xss_src, 'regex_functor'), (xss_src, 'uri_validator_functor'), (xss_src, 'booster::regex_match')] + [(xss_src, n) for n in XSS_CORE]
         with concurrent.futures.ThreadPoolExecutor(len(want)) as ex_:
             futs = [(w_, ex_.submit(cxx2v.run_clang, w_[0], w_[1], vlib.repo_incs(), 'c++11')) for w_ in want]
             for w_, fu in futs:
@@ -990,6 +1006,24 @@ def gen_control():
             o_ = []
             sk(body_of(fd), o_)
             items2.append((label, o_))
+        # RIGID ties (fatal, coq/C04/LinkR.v): (a) how booster::regex turns a pattern into the full-match form and runs it: regex::assign (the
+        # wrapper text "(?:" pattern ")\\z" and the compile of it into d->are), regex::match (pcre_exec on d->are, PCRE_ANCHORED), the template
+        # booster::regex_match(begin,end,r) that xss.cpp instantiates and the regex_functor of xss.cpp that calls it; (b) the digit string to
+        # number conversion of parse_html_entity: the declaration of code_point (its TYPE) and the two strtol calls with their bases
+        items3 = []
+        for label, fd in (
+                ('regex::assign', decl(re_src, 'regex::', 'CXXMethodDecl', 'assign')),
+                ('regex::match', decl(re_src, 'regex::', 'CXXMethodDecl', 'match', ty('bool (const char *, const char *, int) const'))),
+                ('booster::regex_match', decl(xss_src, 'booster::regex_match', 'FunctionDecl', 'regex_match',
+                                              ty('(const char *, const char *, const booster::regex &, int)'))),
+                ('regex_functor::operator()', decl(xss_src, 'regex_functor', 'CXXMethodDecl', 'operator()')),
+                ('uri_validator_functor::operator()', decl(xss_src, 'uri_validator_functor', 'CXXMethodDecl', 'operator()'))):
+            o_ = []
+            sk(body_of(fd), o_)
+            items3.append((label, o_))
+        pe = dict(items2)['parse_html_entity']
+        items3.append(('parse_html_entity: code_point', [t for t in pe if (t.startswith('var ') and t.split(' = ')[0].endswith(' code_point')) or 'strto' in t
+                                                         or t.startswith('(code_point = ')]))
         XSS_SKELETON['text'] = '\n'.join('== %s\n%s' % (l, '\n'.join(o_)) for l, o_ in items2) + '\n'
         def q(t):
             t = t.replace('"', "'").replace('\\', '/')
@@ -1001,7 +1035,9 @@ def gen_control():
                  'Definition g_c04_control : list (string * list string) :=\n  [%s].\n' % ';\n   '.join(
                      '(%s,\n    [%s])' % (q(l), ';\n     '.join(q(t) for t in o_)) for l, o_ in items),
                  'Definition g_c04_xss_control : list (string * list string) :=\n  [%s].\n' % ';\n   '.join(
-                     '(%s,\n    [%s])' % (q(l), ';\n     '.join(q(t) for t in o_)) for l, o_ in items2)]
+                     '(%s,\n    [%s])' % (q(l), ';\n     '.join(q(t) for t in o_)) for l, o_ in items2),
+                 'Definition g_c04_rigid_control : list (string * list string) :=\n  [%s].\n' % ';\n   '.join(
+                     '(%s,\n    [%s])' % (q(l), ';\n     '.join(q(t) for t in o_)) for l, o_ in items3)]
         txt, err = '\n'.join(lines) + '\n', []
     except cxx2v.Unsupported as e:
         txt = '(* translator failed: %s *)\nDefinition broken : False := I.\n' % str(e).replace('*)', '* )').replace('"', "'")
@@ -1708,6 +1744,108 @@ def gen_encoding_cases(ctx, fixed):
     return cases
 
 
+# ------------------------------------------------------------------------------------------------
+# regex-typed attributes: boundary bytes around an otherwise matching value; numeric references: the digit string -> number conversion
+# ------------------------------------------------------------------------------------------------
+WS_MATERIAL = [b'\n', b'\r', b'\r\n', b'\n\n', b'\n\r', b'\x00', b'\t', b' ', b'\x0b', b'\x0c', b'\x7f', b'\x85', b'\xc2\x85', b'\xe2\x80\xa8',
+               b'\xe2\x80\xa9', b' \n', b'\n ', b'\x1f', b'\xa0']
+REGEX_BASE = {'re:.*': [b'text', b'a b', b''], 're:[a-z]+': [b'intro', b'a', b'abc'], 're:a*': [b'aaa', b'a', b''], 're:[a-z ]*': [b'hello world', b'abc', b'']}
+
+
+def regex_slots(rs):
+    """(tag, kind, attribute, pattern spec) for every regex-typed attribute of the rule set"""
+    out = []
+    for t, k, attrs in rs.tags:
+        for a, vk in attrs:
+            if vk.startswith('f') and rs.funs[int(vk[1:])].startswith('re:') and k != 0:
+                out.append((t, k, a, rs.funs[int(vk[1:])]))
+    return out
+
+
+def gen_regex_cases(ctx, fixed):
+    rng = ctx.rng
+    cases = []
+    u8x = RuleSet('x', 1, 1, 'UTF-8', ['nbsp'], FUNS, fixed[0].tags)
+    l1h = RuleSet('h', 1, 1, 'ISO-8859-1', ['nbsp'], FUNS, fixed[1].tags)
+    sets = [fixed[0], fixed[1], u8x, l1h]
+
+    def doc(t, k, a, v, q):
+        tn, an = t.encode(), a.encode()
+        if k == 2:
+            return b'<' + tn + b' ' + an + b'=' + q + v + q + rng.choice([b'/>', b' />'])
+        return b'<' + tn + b' ' + an + b'=' + q + v + q + b'>text</' + tn + b'>'
+    for rs in sets:
+        for t, k, a, spec in regex_slots(rs):
+            for base in REGEX_BASE.get(spec, [b'a']):
+                for m_ in WS_MATERIAL:
+                    mid = len(base) // 2
+                    for v in (base + m_, m_ + base, base[:mid] + m_ + base[mid:], base + m_ + m_, m_, base + m_ + base):
+                        if rs.m == 'h' and rs.enc == '-' and rng.random() < 0.5:
+                            continue
+                        q = b"'" if rng.random() < 0.5 else b'"'
+                        cases.append(rs.case(doc(t, k, a, v, q), rng.choice([0, 0, 63])))
+    # random rule sets: a matching value with one boundary byte appended / prepended
+    for _ in range(ctx.scale(1500, 40000)):
+        rs = rng.choice(sets)
+        sl = regex_slots(rs)
+        if not sl:
+            continue
+        t, k, a, spec = rng.choice(sl)
+        base = rng.choice(REGEX_BASE.get(spec, [b'a']))
+        m_ = rng.choice(WS_MATERIAL)
+        v = rng.choice([base + m_, m_ + base, base + m_ * 2, base + bytes([rng.randrange(256)]), bytes([rng.randrange(256)]) + base])
+        if b'"' in v:
+            continue
+        cases.append(rs.case(b'<b>' + doc(t, k, a, v, b'"') + b'</b>', 0))
+    return cases
+
+
+CP_ALLOWED = [9, 10, 13, 32, 60, 62, 38, 65, 126, 160, 0xD7FF, 0xDC00, 0xE000, 0xFFFD, 0x10000, 0x10FFFF]
+CP_FORBIDDEN = [0, 8, 11, 12, 14, 31, 127, 128, 159, 0xD800, 0xDBFF, 0xFFFE, 0xFFFF, 0x110000]
+
+
+def gen_numeric_cases(ctx, fixed):
+    """numeric character references whose digit string denotes v + k*2^32, v + k*2^64 (the low 32 / 64 bits are an allowed or a
+    forbidden code point), values around LONG_MAX / ULONG_MAX / INT_MAX / UINT_MAX, digit strings of 10..40 digits with leading zeros,
+    decimal and hexadecimal in both letter cases"""
+    rng = ctx.rng
+    cases = []
+    sets = [fixed[0], fixed[1], RuleSet('x', 0, 1, 'UTF-8', [], [], [('b', 1, [])])]
+    offs = [2 ** 32, 2 * 2 ** 32, 5 * 2 ** 32, 2 ** 31 * 2 ** 32, (2 ** 32 - 1) * 2 ** 32, 2 ** 64, 2 * 2 ** 64, 2 ** 64 + 2 ** 32, 2 ** 63, 2 ** 96, 2 ** 128]
+    vals = []
+    for v in CP_ALLOWED + CP_FORBIDDEN:
+        vals.append(v)
+        for o in offs:
+            vals.append(v + o)
+    for edge in (2 ** 31, 2 ** 32, 2 ** 63, 2 ** 64):
+        vals += [edge - 2, edge - 1, edge, edge + 1, edge + 60, edge + 65]
+    vals += [10 ** 9 + 60, 10 ** 19, 10 ** 20 + 65, 10 ** 39 + 60, 16 ** 9 + 0x3C, 16 ** 16 + 0x41, 16 ** 39 + 0x3C]
+
+    def spell(v):
+        z = b'0' * rng.choice([0, 0, 1, 7, 25])
+        k = rng.randrange(3)
+        if k == 0:
+            return b'&#' + z + str(v).encode() + b';'
+        return b'&#' + rng.choice([b'x', b'X']) + z + (('%x' if k == 1 else '%X') % v).encode() + b';'
+    for v in vals:
+        for rs in sets:
+            for txt in (b'&#%d;' % v, b'&#x%x;' % v, b'&#X%X;' % v, spell(v)):
+                cases.append(rs.case(txt))
+            cases.append(rs.case(b'<b>x' + spell(v) + b'</b>' + spell(v)))
+    # digit strings of every length 10..40 whose low bits are an allowed code point
+    for n in range(10, 41):
+        for base, digs in ((10, '0123456789'), (16, '0123456789abcdefABCDEF')):
+            for _ in range(ctx.scale(2, 20)):
+                hi = int(''.join(rng.choice(digs[:base if base == 10 else 16]) for _ in range(n)), base)
+                v = (hi >> 32 << 32) + rng.choice(CP_ALLOWED) if rng.random() < 0.7 else hi
+                txt = (b'&#%d;' % v) if base == 10 else (b'&#x%x;' % v if rng.random() < 0.5 else b'&#X%X;' % v)
+                cases.append(rng.choice(sets).case(rng.choice([b'', b'a', b'<b>']) + txt))
+    for _ in range(ctx.scale(1000, 30000)):
+        v = rng.choice(CP_ALLOWED + CP_FORBIDDEN) + rng.randrange(0, 2 ** 33) * 2 ** 32
+        cases.append(rng.choice(sets).case(spell(v)))
+    return cases
+
+
 def gen_cases(ctx):
     rng = ctx.rng
     cases = []
@@ -1823,6 +1961,9 @@ def gen_cases(ctx):
             elif k == 1 and raw:
                 raw = raw[:-1]
             cases.append(rs.case(raw, rng.choice([0, 63])))
+    # 12. regex-typed attributes: boundary bytes before / inside / after a matching value; 13. numeric references: the conversion
+    cases.extend(gen_regex_cases(ctx, fixed))
+    cases.extend(gen_numeric_cases(ctx, fixed))
     # 11. encoding boundary material
     cases.extend(gen_encoding_cases(ctx, fixed))
     # 6. long inputs
@@ -1935,8 +2076,10 @@ def check_value(R, vk, raw):
     elif vk.startswith('f'):
         spec = R['funs'][int(vk[1:])]
         if spec.startswith('re:'):
+            # independent judgement: the WHOLE value must be in the language of the pattern (python re.fullmatch; as in PCRE without
+            # DOTALL a dot does not match a line feed, and nothing - no trailing line feed either - may follow the match)
             pat = spec[3:]
-            if pat != '.*' and not re.fullmatch(pat.encode('latin-1'), raw, re.S):
+            if not re.fullmatch(pat.encode('latin-1'), raw):
                 return 'regex-attribute-does-not-match'
         else:
             # RFC 3986 characters only (as the value stands in the text: & only from the permitted entities)
@@ -2123,6 +2266,15 @@ def oracle(case, out):
     if not all(k in o for k in ('v', 'fl', 'rm', 'es', 'vrm', 'ves')):
         return ('bad-output', 'unexpected harness answer ' + out[:200])
     if 'PATHS-DIFFER' in head:
+        if 'PRM' in o and 'PES' in o:
+            # the rule set built with the convenience overloads of the public API (the library's own regex_functor / URI validators) answered
+            # differently: judge what IT returns with the independent tokenizer, so that the failure is named
+            Rp = rules_of(fields_of(case))
+            for name, text in (('remove_invalid', unhex(o['PRM'])), ('escape_invalid', unhex(o['PES']))):
+                r = lenient_scan(Rp, text) if Rp['enc'] not in NONASCII else None
+                if r:
+                    return (r, 'independent tokenizer over the %s output of filter() under the rule set registered with the convenience overloads '
+                               '(add_property(tag, attr, booster::regex) ...): %s' % (name, r))
         return ('entry-points-disagree', 'the entry points of the filter disagree: ' + ' '.join(t for t in head.split() if t.startswith('PATHS')))
     f = fields_of(case)
     R = rules_of(f)
@@ -2291,7 +2443,7 @@ def run(ctx):
         'extraction: ExtrOcamlBasic only, OCaml 4.13.1',
         'harness/C04_xss.cpp, ocaml/C04_driver.ml, checks/C04.py (generators, oracle table plumbing, independent python tokenizer)',
         'hand model of the loops of src/xss.cpp (coq/C04/Defs.v), tied by correspondence only',
-        'regex engine (PCRE via booster::regex): abstract, answered by the real code during correspondence (regex validators and the scheme expression of URI validators); class uri_parser is modelled (coq/C04/DefsU.v), its one-byte matchers, alternatives and entry points are tied by Link.v',
+        'regex engine (PCRE via booster::regex): for patterns of the family parsed by coq/C04/DefsR.v the model decides (coq/C20/Defs.v full_match, proved correct in coq/C20/Regex.v, imported read-only) and the real regex_functor is cross-checked on every value (REGEX-MODEL-DIFFERS); other patterns and the scheme expression of URI validators: abstract, answered by the real code; the full-match anchoring of booster::regex is tied rigidly (LinkR.v); class uri_parser is modelled (coq/C04/DefsU.v), its one-byte matchers, alternatives and entry points are tied by Link.v',
         'cppcms::encoding::valid / validate_or_filter / is_ascii_compatible: modelled (coq/C14/Defs.v through coq/C04/DefsE.v), computed by the extracted model during correspondence (the answers of the real functions printed by the harness are not given to the model); leafs utf::valid, is_trail, trail_length, width tied by coq/C04/LinkE.v over coq/gen/Gen_C04utf.v; decoder switch, filter loops, validators_set table, single byte loop bodies: by correspondence',
         'coq/C14/Spec.v (transcription of the RFC 3629 section 4 ABNF and section 3 table) as the meaning of well-formed UTF-8; python strict decoders and code page tables in the oracle',
         'booster::locale::conv::to_utf / from_utf (iconv) for the encodings that are not ASCII compatible: abstract, answered by the real code']
@@ -2301,7 +2453,8 @@ def run(ctx):
         'filter output well-formedness / stability with an encoding: the replacement character is absent (0) or itself acceptable (HTML-safe ASCII for UTF-8, a byte the code page accepts otherwise); for converted encodings premise conv_roundtrip (to_utf (from_utf u) = u)',
         'single byte theorems: input bytes < 256 (bytes_ok) for the control character corollary',
         'stability: premise kind_compat / esc_entities_ok on the rule set, proved for every rule set the public API can build',
-        'char is signed 8-bit on this target (x86-64), as clang reports']
+        'char is signed 8-bit and long is 64-bit on this target (x86-64, LP64), as clang reports; strtol saturates at LONG_MAX (C standard)',
+        'regex theorems: for patterns of the family of coq/C04/DefsR.v, under the reading of the pattern text given by parse_pattern (cross-checked against PCRE on every value asked)']
     if not exe:
         ctx.broke('harness build failed', herr)
         return
@@ -2320,7 +2473,7 @@ def run(ctx):
         'NUL) and single-byte mutations of them under 12 fixed + random rule sets (xhtml/html, tag kinds, repeated registrations of a tag / attribute, boolean/integer/regex/uri/absolute/'
         'relative attributes, comments and numeric entities on/off, encodings none/UTF-8/ISO-8859-x/windows-125x/koi8/ascii), replacement '
         'characters 0 ? space X < & > " ;; documents that validate and single structural damages of them; converted encodings UTF-16LE/BE, UTF-32LE, '
-        'Shift_JIS, EUC-JP, GBK with wide characters, stray bytes and truncation; encoding boundary material (gen_encoding_cases): for UTF-8 every boundary code point (7F/80, 9F/A0, 7FF/800, FFFF/10000, D7FF/D800/DFFF/E000, FFFD/FFFE, 10FFFF/110000, 1FFFFF) in shortest form and in every over-long form incl. 5/6 byte forms, over-long < > & and quote, truncated sequences, stray trail bytes, invalid lead bytes, bad bytes at every trail position, the second-byte ranges of E0/ED/F0/F4 - each placed in 21 contexts (text, end of input, before <, before &, inside / at the cut end of an attribute value, URI value, tag / attribute / entity name, numeric entity, comment, cut tag ...) under an xhtml and an html rule set; pairs of such sequences; the grid lead class x second byte x trail bytes of lengths 2-4; every single byte; every byte under every single byte validator body (thorough: every table name) in text and in an attribute value; UTF-16/32 units (lone surrogates, controls, odd length); URI attribute values: grammar-guided (scheme/authority/path/query/fragment parts, good and bad) and exhaustive short sequences of 13 URI symbols under the three URI validator kinds. A case is non-trivial when the input contains at least one of < > &, or - with an encoding declared - a byte outside printable ASCII / tab / LF / CR; distinct = distinct case lines.')
+        'Shift_JIS, EUC-JP, GBK with wide characters, stray bytes and truncation; encoding boundary material (gen_encoding_cases): for UTF-8 every boundary code point (7F/80, 9F/A0, 7FF/800, FFFF/10000, D7FF/D800/DFFF/E000, FFFD/FFFE, 10FFFF/110000, 1FFFFF) in shortest form and in every over-long form incl. 5/6 byte forms, over-long < > & and quote, truncated sequences, stray trail bytes, invalid lead bytes, bad bytes at every trail position, the second-byte ranges of E0/ED/F0/F4 - each placed in 21 contexts (text, end of input, before <, before &, inside / at the cut end of an attribute value, URI value, tag / attribute / entity name, numeric entity, comment, cut tag ...) under an xhtml and an html rule set; pairs of such sequences; the grid lead class x second byte x trail bytes of lengths 2-4; every single byte; every byte under every single byte validator body (thorough: every table name) in text and in an attribute value; UTF-16/32 units (lone surrogates, controls, odd length); regex-typed attributes (gen_regex_cases): for every regex-typed attribute of 4 rule sets, every matching base value with each of 19 boundary byte sequences (LF, CR, CRLF, LF LF, LF CR, NUL, tab, blank, VT, FF, US, DEL, 0x85, U+0085, U+2028, U+2029, NBSP byte, blank LF, LF blank) before, inside, after, doubled after, alone and between two copies, both quote characters, plus random single bytes appended / prepended; numeric character references (gen_numeric_cases): v + k*2^32 and v + k*2^64 (and 2^63, 2^96, 2^128 offsets) for 16 allowed and 14 forbidden code points v, values around INT_MAX / UINT_MAX / LONG_MAX / ULONG_MAX, powers of 10 and 16, digit strings of every length 10..40 with and without leading zeros, decimal and both hexadecimal letter cases; URI attribute values: grammar-guided (scheme/authority/path/query/fragment parts, good and bad) and exhaustive short sequences of 13 URI symbols under the three URI validator kinds. A case is non-trivial when the input contains at least one of < > &, or - with an encoding declared - a byte outside printable ASCII / tab / LF / CR; distinct = distinct case lines.')
     ctx.coverage['exhaustive'] = False
     ctx.coverage['exhaustive_parts'] = ['strings of length<=%d over 12 symbols' % ctx.scale(3, 5),
                                         'piece sequences of length<=%d (quick: half of the longest)' % ctx.scale(3, 4),
